@@ -61,7 +61,8 @@ type result struct {
 	NV     int64  `json:"nv"`   // Polygon: the decoded numVertices field
 	HasNV  bool   `json:"hasnv"`
 	Sig       string `json:"sig"`       // shape signature (edges, chains) of a decoded loop/polyline/polygon
-	ReuseDiff string `json:"reuseDiff"` // decoding into a used receiver differs from a fresh decode
+	ReuseDiff string `json:"reuseDiff"`
+	ReaderDiff string `json:"readerDiff"` // decoding through a chunked reader differs from the bytes.Reader decode // decoding into a used receiver differs from a fresh decode
 	Note   string `json:"note"` // non-fatal finding of the use phase (re-encoding does not decode)
 	Use    string `json:"use"`  // ok | panic
 	UseAt  string `json:"useAt"`
@@ -87,6 +88,7 @@ const (
 	// per-input watchdogs
 	normalWatchdog = 6 * time.Second
 	bigWatchdog    = 60 * time.Second
+	retryWatchdog  = 20 * time.Second
 	// after this many hangs / memory aborts / crashes of the child the remaining inputs are skipped:
 	// the run already has its failing inputs and must end in bounded time
 	maxAbnormal = 8
@@ -216,6 +218,19 @@ func runAll(inputs []input, deadline time.Time) []result {
 			}
 		}
 		res[i], ch = ask(ch, inp, normalWatchdog)
+		if ch == nil && res[i].Out == "hang" {
+			// a loaded machine can make an innocent decode miss the short watchdog: a hang counts
+			// only if it repeats in a fresh child under a longer one
+			retry, err := startChild(normalAS)
+			if err == nil {
+				var alive *child
+				res[i], alive = ask(retry, inp, retryWatchdog)
+				if alive != nil {
+					alive.kill()
+					continue
+				}
+			}
+		}
 		if ch == nil {
 			abnormal++
 		}
@@ -524,6 +539,10 @@ func buildInputs(c *vkit.Collector, rng *vkit.Rng, budget int) []input {
 	ins := append(corpusInputs(), regressionInputs()...)
 	ins = append(ins, fieldInputs()...)
 	ins = append(ins, reuseInputs(c, rng)...)
+	for _, e := range cg.LargeEncodings(rng) {
+		ins = append(ins, input{Kind: e.Kind, Data: e.Data, Label: cg.KindNames[e.Kind] + " " + e.Label})
+		c.Class("valid(large, > 4096 bytes)")
+	}
 	c.Extra["corpus_inputs"] = len(ins) - len(regressionInputs())
 	add := func(k cg.Kind, data []byte, label string, big bool) {
 		ins = append(ins, input{k, data, cg.KindNames[k] + " " + label, big})
@@ -678,6 +697,10 @@ func run(c *vkit.Collector, rng *vkit.Rng, budget int) {
 				ph = append(ph, tail(hex.EncodeToString(pb), 1200))
 			}
 			rep["decoded_before_into_the_same_receiver_hex"] = ph
+		}
+		if r.ReaderDiff != "" {
+			rep2 := map[string]interface{}{"type": kn, "input_hex": tail(hexIn, 2000), "input_len": len(inp.Data), "label": inp.Label, "detail": r.ReaderDiff}
+			c.Violate(kn+".Decode.readerKind.differs", r.ReaderDiff, rep2)
 		}
 		fn, eq := coqDecode(inp.Kind, inp.Data)
 		bt := cg.InZ(cg.BytesT(inp.Data))
